@@ -94,6 +94,24 @@ CLAIMED.update({
         note="Every lock acquisition, park and spin-wait of the crate is announced by a hook (a new unhooked lock would be missed)."),
 })
 
+CLAIMED.update({
+    "C07": dict(
+        cat="model_checking", ref="DESIGN.md §7 C07",
+        technique="TLC trace validation of recorded iteration histories (yield events + concurrent call/returns) against Trace_Hist",
+        text="An iterating thread (iter/keys/values, map and set) with 1-3 writers on 11 table shapes, including a 4-bin table resized 2-3 "
+             "times during the iteration and tree bins with removals; random/PCT schedules and scripted ones that complete whole (nested) "
+             "resizes between two next() calls. TLC accepts a history iff some linearization of the concurrent calls makes every yielded "
+             "entry one that was in the map since the iterator's creation and every entry present and untouched throughout yielded exactly once.",
+        note="Found on the pinned tree: F5 (traverser dereferences a null `first`), see known_findings.json."),
+    "C13": dict(
+        cat="model_checking", ref="DESIGN.md §7 C13",
+        technique="TLC trace validation (Trace_Hist: predicate verdicts + conditional-removal linearization points)",
+        text="A retain / retain_force thread racing replacements, removals and computes of the inspected keys; TLC accepts iff each rejected "
+             "entry is removed exactly when its value is still the inspected one (retain) / whenever present (retain_force), no other "
+             "entry is removed, and the traversal showed every untouched entry to the predicate exactly once.",
+        note="Sequential equality with a reference retain is part of C02."),
+})
+
 NOT_APPLICABLE = {
     "C16": "compile-time verdict of rustc's borrow checker over a corpus of programs; there is no state, transition or trace for a TLA+ specification to describe (DESIGN.md §7)",
     "C17": "compile-time verdict of rustc's trait solver (Send/Sync bounds); no state, transition or trace for a TLA+ specification to describe (DESIGN.md §7)",
